@@ -26,6 +26,7 @@ THEOREMS = {"glob_iff": "full: match_glob = wildcard semantics for every pattern
             "extract_reproduces_tree_lk7": "full: LHark members (-lh7-, level 1, OS ' ' presented as -lk7-): all twelve decodable methods are now covered",
             "extract_level0_dos": "full: plain level-0 headers (DOS stamp; even seconds from 1980), all eleven methods",
             "extract_level0_unix": "full: level-0 headers with the Unix area (exact time, permissions, links)", "dos_time_roundtrip": "full",
+            "extract_flat_unified": "full: option i TOGETHER WITH wildcards, w=DIR, pre-existing files and the overwrite policy", "flat_no_directories": "full",
             "extract_unified": "full: wildcards x w=DIR x implicit parents x late directory entries x overwrite policy in ONE statement (the other tree theorems are instances); option i excepted",
             "extract_selected_any": "full: ANY wildcard list on a directory-first archive (no closure condition)",
             "extract_reproduces_tree_packed": "full: the same for any member packer with a decoder round trip (stored L1/L2, -lzs-, -lz5- instantiated)",
@@ -802,7 +803,7 @@ LEVEL_TEXT = ("Lean theorems: extraction of a well-formed archive yields exactly
 LEVEL_NOTE = ("Partial: the file system is a model (no hard links, chown, whole-second times); tree equality is PROVED end to end on archive "
               "bytes for plain `lha x` of well-formed trees with explicit parent entries (extract_reproduces_tree: header encoder + stored/"
               "-lzs-/-lz5- members; run_tree_partial for any archive that denotes the tree) and checked by correspondence for options "
-              "nested pre-existing files / option i combined with other deviations / byte-exact LHark headers. Implicit parents and mixed archives are proved (extract_implicit_parents, extract_mixed). Options i, w=DIR and parent-closed wildcard "
+              "nested pre-existing files / pre-existing directories / byte-exact LHark headers. Implicit parents and mixed archives are proved (extract_implicit_parents, extract_mixed). Options i, w=DIR and parent-closed wildcard "
               "selections are proved (extract_flattened, extract_relocated, extract_selected), all eleven other methods too. See evidence.theorems.")
 TECHNIQUE = ("Lean 4 proof (whole-tree theorem over the Fs/Extract/Reader models by loop invariant; glob semantics; MacBinary) + "
              "hypothesis evaluation on generated archives + file-system-model correspondence + independent tree oracle")
